@@ -161,6 +161,7 @@ class Analyzer:
         self.record = False
         self.trace = False
         self.probe_spec = []
+        self.force_ret = {}
         self.rule_c06a = False
         self.soft_widen_on = bool(os.environ.get("SOFT_WIDEN"))
 
@@ -1138,6 +1139,11 @@ class Analyzer:
             for s in b["stmts"]:
                 if s["k"] == "assign":
                     self.moved = []
+                    if self.record and self.probe_spec and s["rv"]["k"] == "aggregate" and s["rv"].get("adt"):
+                        for (pc, pin) in self.probe_spec:
+                            if pc == "<aggregate:" + s["rv"]["adt"] + ">" and (pin is None or fname == pin):
+                                PROBES.append(dict(site=f"{site_prefix}{fname}@bb{bb}", kind="aggregate", callee=pc, fn=fname, args=[], lens={}, C=st.C.copy(), at=s.get("at"), stmt=s,
+                                                   mem={k2: v2 for k2, v2 in st.mem.items() if isinstance(v2, (Int, Enum, Bool, VecVal))}, fr=fr, bb=bb))
                     v = self.rvalue(st, fr, s["rv"], s["place"]["ty"], s.get("at"))
                     for m in self.moved: st.mem.pop(m, None)
                     self.write_place(st, fr, s["place"], v)
@@ -1245,14 +1251,17 @@ class Analyzer:
                             if isinstance(a_, (Ref, Slice)): lens[ai] = self.seq_len(st, a_)
                         except Exception: pass
                     PROBES.append(dict(site=site, kind="call", callee=path, fn=f["key"], args=args, lens=lens, C=st.C.copy(), at=t.get("at"),
-                                       mem={k: v for k, v in st.mem.items() if isinstance(v, (Int, Enum))}, fr=fr, bb=bb))
+                                       mem={k: v for k, v in st.mem.items() if isinstance(v, (Int, Enum, Bool, VecVal))}, fr=fr, bb=bb))
         # rule hook C06.a: the offset handed to SuffixDict::insert must equal the current output length
         if path == "compress::SuffixDict::insert" and f["key"] == "compress::Compress::copy_compressed_name_with_base_offset" and self.rule_c06a:
             outlen = self.seq_len(st, st.mem[f"{fr}._2"]) if isinstance(st.mem.get(f"{fr}._2"), Ref) else None
             if outlen is not None and isinstance(args[2], Int):
                 self.oblige(st, [eq(args[2].e, outlen)], site, "C06.a dict-offset == len(output)", f"{args[2].e} == {outlen}")
+        for fp, fv in self.force_ret.items():
+            if path == fp or path.endswith(fp):
+                results = [(st, Bool("const", v=fv))]
         # local callee?
-        if callee.get("resolved_local") or (callee.get("resolved") is None and callee.get("local")):
+        if results is None and (callee.get("resolved_local") or (callee.get("resolved") is None and callee.get("local"))):
             key = self.local_key(callee, f)
             if key is not None:
                 if self.havoc_threshold is not None and self.closure_size(key) > self.havoc_threshold:
